@@ -46,7 +46,8 @@ class KDataRemoveOsMixin(_KDataProtocol):
             raise ValueError('Recon matrix along x should be equal or larger than encoding matrix along x.')
 
         # Starting and end point of image after removing oversampling
-        start_cropped_readout = (self.header.encoding_matrix.x - self.header.recon_matrix.x) // 2
+        # the center of the image (index n//2) stays the center
+        start_cropped_readout = self.header.encoding_matrix.x // 2 - self.header.recon_matrix.x // 2
         end_cropped_readout = start_cropped_readout + self.header.recon_matrix.x
 
         def crop_readout(data_to_crop: torch.Tensor) -> torch.Tensor:
